@@ -513,9 +513,13 @@ def generate(tier, seed):
             dim = {'line': 1, 'tri': 2, 'quad': 2}.get(kind, 3)
             prob = 'elasticity' if vector else ['poisson', 'reaction'][int(rng.integers(0, 2))]
             poly = [p_terms(p_rand(dim, deg, rng), dim) for _ in range(dim if vector else 1)]
+            # restrict / remove_elements may leave pieces that hang together at a vertex only (or not at all): there
+            # the data is essential on the whole boundary, so that the problem stays uniquely solvable
+            loose = any(op[0] in ('restrict', 'remove_elements') for op in spec['ops'])
             r = {'driver': 'solve', 'kind': kind, 'family': fam, 'elem': name, 'problem': prob, 'mesh': spec, 'poly': poly,
-                 'splits': [{'bc': 'mixed', 'dform': 'view', 'method': 'condense', 'dparts': [],
-                             'dir': [int(j) for j in rng.integers(0, 1000, int(rng.integers(2, 6)))]}]}
+                 'splits': [{'bc': 'dirichlet' if loose else 'mixed', 'dform': 'view', 'method': 'condense', 'dparts': [],
+                             'dir': list(range(600)) if loose else
+                             [int(j) for j in rng.integers(0, 1000, int(rng.integers(2, 6)))]}]}
             recs.append(problem_fields(r, prob))
     # ---- STRONGLY GRADED tensor grids (geometric spacing, cell measures spanning > 16 decades): degree-one patch
     # tests (exact fixed-point oracle at the dyadic DOF locations) and projection identities, relative to the O(1)
